@@ -208,6 +208,11 @@ func (m *BaseUndoLogManager) FlushUndoLog(tranCtx *types.TransactionContext, con
 		if i < len(afterImages) {
 			afterImage = afterImages[i]
 		}
+		// a statement that touched no row has nothing to undo; an item without rows cannot be
+		// turned into a compensating statement and would fail the rollback of the whole branch
+		if (beforeImage == nil || len(beforeImage.Rows) == 0) && (afterImage == nil || len(afterImage.Rows) == 0) {
+			continue
+		}
 
 		undoLog := undo.SQLUndoLog{
 			SQLType:     sqlType,
